@@ -1178,6 +1178,19 @@ func c13URLSource(v ssa.Value) (kinds map[string]bool, params []*ssa.Parameter, 
 				kinds["next-link"] = true
 				continue
 			}
+			// the link handed back by a page fetcher parameter of a generic pagination driver
+			if call, ok := u.Tuple.(*ssa.Call); ok && u.Index == 0 && !call.Call.IsInvoke() && StaticCallee(call) == nil {
+				isFetcher := false
+				for _, fr := range Roots(call.Call.Value) {
+					if prm, isParam := fr.(*ssa.Parameter); isParam && c15IsFetcherType(prm.Type()) {
+						isFetcher = true
+					}
+				}
+				if isFetcher {
+					kinds["next-link"] = true
+					continue
+				}
+			}
 		case *ssa.Call:
 			if c13IsURLBuilder(StaticCallee(u)) {
 				kinds["builder"] = true
@@ -1323,13 +1336,70 @@ func c13R4(c *Ctx) {
 					}
 				}
 				callers := 0
+				var checkArg func(g *ssa.Function, arg ssa.Value, depth int)
+				checkArg = func(g *ssa.Function, arg ssa.Value, depth int) {
+					k2, p2, u2 := c13URLSource(arg)
+					if u2 != nil || k2["location"] {
+						ok, why = false, "caller "+FnName(g)+" passes a URL that is neither a builder result nor the previous page's link"
+						return
+					}
+					// the caller's own parameter: a page fetcher (closure handed to a generic driver, which calls it with
+					// the first URL it was given and then with the links the fetcher returns), or a driver's first-URL parameter
+					for _, q := range p2 {
+						if depth <= 0 {
+							ok, why = false, "caller "+FnName(g)+" passes on a URL parameter whose origin is not followed further"
+							return
+						}
+						qi := -1
+						for i, x := range g.Params {
+							if x == q {
+								qi = i
+							}
+						}
+						found := 0
+						if g.Parent() != nil { // closure: where is it handed to, and how is it called there
+							AllInstrs(g.Parent(), func(in ssa.Instruction) {
+								dc, isCall := in.(ssa.CallInstruction)
+								if !isCall {
+									return
+								}
+								D := StaticCallee(dc)
+								if D == nil || !inModule(D) || len(D.Blocks) == 0 {
+									return
+								}
+								for j, a := range dc.Common().Args {
+									mc, isMC := strip(a).(*ssa.MakeClosure)
+									if !isMC || mc.Fn != g || j >= len(D.Params) {
+										continue
+									}
+									dal := Aliases(D.Params[j])
+									for _, ci := range Calls(D, func(string) bool { return true }) {
+										if !ci.Common().IsInvoke() && dal[ci.Common().Value] && qi < len(ci.Common().Args) {
+											found++
+											ai := qi
+											if ai < len(ci.Common().Args) {
+												checkArg(D, ci.Common().Args[ai], depth-1)
+											}
+										}
+									}
+								}
+							})
+						}
+						for _, h := range c.P.FuncsOfPkg(c13PkgRemote) {
+							for _, call := range c13CallsToFn(h, g) {
+								found++
+								checkArg(h, call.Common().Args[qi], depth-1)
+							}
+						}
+						if found == 0 {
+							ok, why = false, "caller "+FnName(g)+" passes on a URL parameter for which no call was found"
+						}
+					}
+				}
 				for _, g := range c.P.FuncsOfPkg(c13PkgRemote) {
 					for _, call := range c13CallsToFn(g, f) {
 						callers++
-						k2, p2, u2 := c13URLSource(call.Common().Args[idx])
-						if u2 != nil || len(p2) > 0 || k2["location"] {
-							ok, why = false, "caller "+FnName(g)+" passes a URL that is neither a builder result nor the previous page's link"
-						}
+						checkArg(g, call.Common().Args[idx], 3)
 					}
 				}
 				if callers == 0 {
